@@ -94,7 +94,9 @@ def mainBlock (a : Arch) (cur : Nat) (s : RtlState) (p : PortsIn) : RtlState :=
       if o < a.m then { next with auxo := s.auxo.set o (s.regs.getD k 0) } else next
     else if op = "i2rw" then
       let i := part cur W (ob + a.r) a.inBits
-      if i < a.n ∧ p.inValid.getD i false then { next with regs := s.regs.set k (p.inputs.getD i 0) } else s
+      if i < a.n ∧ p.inValid.getD i false ∧ s.iRecv.getD i false = false then
+        { next with regs := s.regs.set k (p.inputs.getD i 0) }
+      else s
     else if op = "r2owa" then
       let o := part cur W (ob + a.r) a.outBits
       if o < a.m then
@@ -122,7 +124,7 @@ def valBlock (a : Arch) (cur : Nat) (s : RtlState) (p : PortsIn) (o : Nat) : Boo
   let old := s.oVal.getD o false
   let sel := part cur a.maxWord (a.opBits + a.r) a.outBits
   match curOp a cur with
-  | some "r2owa" => if sel = o then (if s.waitsm then true else old) else (if rc then false else old)
+  | some "r2owa" => if sel = o then (if s.waitsm then true else (if rc then false else old)) else (if rc then false else old)
   | some "r2o" => if sel = o then true else (if rc then false else old)
   | _ => if rc then false else old
 
